@@ -4,13 +4,14 @@ package vgirpc
 
 import (
 	"bytes"
-	"encoding/binary"
 	"context"
 	"crypto/sha256"
+	"encoding/binary"
 	"encoding/hex"
 	"fmt"
 	"io"
 	"net/http"
+	"runtime/debug"
 	"sort"
 	"strings"
 	"testing"
@@ -48,10 +49,14 @@ type vfC30Obj struct {
 }
 
 type vfC30Store struct {
-	objs    map[string]vfC30Obj
-	order   []string
-	uploads int
-	gets    []string
+	// keepSlice: store the slice Upload was handed instead of a private copy - what the
+	// repository's own in-memory mock, a write-behind cache or a batching uploader does. The
+	// ExternalStorage contract does not let the library touch those bytes after Upload.
+	keepSlice bool
+	objs      map[string]vfC30Obj
+	order     []string
+	uploads   int
+	gets      []string
 }
 
 func vfC30NewStore() *vfC30Store { return &vfC30Store{objs: map[string]vfC30Obj{}} }
@@ -59,7 +64,11 @@ func vfC30NewStore() *vfC30Store { return &vfC30Store{objs: map[string]vfC30Obj{
 func (s *vfC30Store) Upload(data []byte, schema *arrow.Schema, contentEncoding string) (string, error) {
 	s.uploads++
 	u := fmt.Sprintf("https://store.test/obj/%d", s.uploads)
-	s.objs[u] = vfC30Obj{data: append([]byte{}, data...), enc: contentEncoding}
+	if s.keepSlice {
+		s.objs[u] = vfC30Obj{data: data, enc: contentEncoding}
+	} else {
+		s.objs[u] = vfC30Obj{data: append([]byte{}, data...), enc: contentEncoding}
+	}
 	s.order = append(s.order, u)
 	return u, nil
 }
@@ -349,6 +358,66 @@ func TestVerif_C30(t *testing.T) {
 			}
 		}
 		x.Outcome("externalized enc=%s gets=%d rows=%d md=%s", upEnc, len(st.gets), rb.NumRows(), vfC30Meta(rb, rm))
+	})
+
+	// ---- space 1b: histories of several externalisations, resolved afterwards ------------
+	// Every earlier space externalises ONE batch per store. Here one config/store sees a
+	// sequence of uploads and only then are the pointers resolved, in every order position:
+	// an upload must stay what it was when later batches go through the same path.
+	seqShapes := []int{0, 1, 9, 10} // int64, utf8, int64+utf8 (small), int64-high-entropy (large)
+	venum.Explore(t, venum.Cfg{Name: "externalize-sequences", Shardable: true}, func(x *venum.X) {
+		n := 2 + x.Choose(venum.QT(1, 2), "extra-uploads") // 2 (thorough: 2..3) uploads
+		zs := x.Bool("zstd")
+		keep := x.Bool("store-keeps-the-uploaded-slice")
+		var idx []int
+		for i := 0; i < n; i++ {
+			idx = append(idx, seqShapes[x.Choose(len(seqShapes), fmt.Sprintf("shape%d", i+1))])
+		}
+		// a garbage collection between two uploads may or may not empty sync.Pools and move
+		// allocations; keep the collector out of the execution so that it is a function of the
+		// choices only
+		defer debug.SetGCPercent(debug.SetGCPercent(-1))
+		st := vfC30NewStore()
+		st.keepSlice = keep
+		cfg := st.config(1, zs)
+		type up struct {
+			orig arrow.RecordBatch
+			pb   arrow.RecordBatch
+			pm   arrow.Metadata
+			url  string
+			snap []byte
+		}
+		var ups []up
+		for i, si := range idx {
+			orig := vfWithMeta(shapes[si].mk(nil), "seq", fmt.Sprint(i))
+			pb, pm, err := MaybeExternalizeBatch(orig, arrow.Metadata{}, cfg)
+			if err != nil || st.uploads != i+1 || !IsExternalLocationBatch(pb, pm) {
+				x.Failf("C30:sequence:not-externalized", "upload %d (%s): err=%v uploads=%d", i+1, shapes[si].name, err, st.uploads)
+				return
+			}
+			u := st.order[i]
+			ups = append(ups, up{orig: orig, pb: pb, pm: pm, url: u, snap: append([]byte{}, st.objs[u].data...)})
+			// every earlier object must still hold the bytes it held when it was uploaded
+			for j := 0; j < i; j++ {
+				if !bytes.Equal(st.objs[ups[j].url].data, ups[j].snap) {
+					x.Failf("C30:sequence:earlier-upload-overwritten-by-later-externalization", "after upload %d (%s) the stored object of upload %d (%s) no longer holds the bytes that were uploaded (store keeps slice=%v zstd=%v)", i+1, shapes[si].name, j+1, shapes[idx[j]].name, keep, zs)
+				}
+			}
+		}
+		var res []string
+		for j, u := range ups {
+			rb, rm, err := ResolveExternalLocation(u.pb, u.pm, cfg)
+			if err != nil {
+				x.Failf("C30:sequence:resolve-error", "pointer %d of %d (%s, store keeps slice=%v zstd=%v): %v", j+1, len(ups), shapes[idx[j]].name, keep, zs, err)
+				res = append(res, vfC30ErrClass(err))
+				continue
+			}
+			if asp, d := vfC30Diff(u.orig, vfC30OwnMeta(u.orig), rb, vfC30Meta(rb, rm)); asp != "" {
+				x.Failf("C30:sequence:"+asp+"-differs", "pointer %d of %d (%s) resolved to something else: %s", j+1, len(ups), shapes[idx[j]].name, d)
+			}
+			res = append(res, fmt.Sprintf("ok:%s:%d", shapes[idx[j]].name, rb.NumRows()))
+		}
+		x.Outcome("zstd=%v keep=%v %v", zs, keep, res)
 	})
 
 	// ---- space 2: fetched streams -------------------------------------------
